@@ -147,13 +147,14 @@ func onceCase(hseed uint64) {
 	}
 	type plan struct {
 		kind   int // 0 value, 1 error value, 2 f sees its context cancelled, 3 same but returns the error wrapped (as net/http does),
-		// 4 the caller's context is ALREADY cancelled when it calls Do, and it calls before everybody else
+		// 4 the caller's context is ALREADY cancelled when it calls Do, and it calls before everybody else,
+		// 5 f panics (the caller recovers outside Do)
 		cancel bool
 		j1, j2 uint64
 	}
 	plans := make([]plan, n)
 	for g := range plans {
-		plans[g] = plan{kind: []int{0, 0, 1, 2, 2, 3, 4}[r.Intn(7)], cancel: r.Chance(1, 4), j1: r.U64(), j2: r.U64()}
+		plans[g] = plan{kind: []int{0, 0, 1, 2, 2, 3, 4, 5}[r.Intn(8)], cancel: r.Chance(1, 4), j1: r.U64(), j2: r.U64()}
 	}
 	errVal := make([]error, n)
 	for g := range errVal {
@@ -211,10 +212,24 @@ func onceCase(hseed uint64) {
 				jitter(p.j1)
 			}
 			called := false
+			defer func() {
+				// kind 5: the panic of f comes out of Do (after its deferred recover handed the slot back)
+				if rec := recover(); rec != nil {
+					if p.kind != 5 {
+						addFail("once-unexpected-panic", "goroutine %d: Do panicked: %v", g, rec)
+					}
+				} else if p.kind == 5 && called {
+					addFail("once-panic-swallowed", "goroutine %d: its function panicked but Do returned normally", g)
+				}
+			}()
 			first, res, err := auth.VerifOnceDo(o, ctx, func() (interface{}, error) {
 				called = true
 				logf("a%d", g)
 				jitter(p.j1 >> 5)
+				if p.kind == 5 {
+					logf("p%d", g)
+					panic(fmt.Sprintf("fetch %d blew up", g))
+				}
 				switch p.kind {
 				case 0:
 					logf("d%d.%d", g, 100+g)
@@ -236,7 +251,7 @@ func onceCase(hseed uint64) {
 					addFail("once-first-result", "goroutine %d got (true, %v, %v) which is not the result of its own function", g, res, err)
 				}
 			case called:
-				if p.kind < 2 || res != nil || !errors.Is(err, ctx.Err()) {
+				if p.kind < 2 || p.kind == 5 || res != nil || !errors.Is(err, ctx.Err()) {
 					addFail("once-cancel-result", "goroutine %d ran f to a cancellation but got (false, %v, %v)", g, res, err)
 				}
 			case res == nil && err != nil && ctx.Err() != nil && err == ctx.Err():
@@ -262,7 +277,7 @@ func onceCase(hseed uint64) {
 			switch e[0] {
 			case 'a':
 				inF = true
-			case 'c':
+			case 'c', 'p':
 				inF = false
 			case 'd':
 				inF, published = false, true
@@ -280,7 +295,15 @@ func onceCase(hseed uint64) {
 		}
 		return
 	}
-	line := fmt.Sprintf("O %d %s", len(trace), strings.Join(trace, " "))
+	// for the channel LTS of Model/Once.v a panic of f is a hand-over like a cancellation
+	oTrace := make([]string, len(trace))
+	for i, e := range trace {
+		oTrace[i] = e
+		if e[0] == 'p' {
+			oTrace[i] = "c" + e[1:]
+		}
+	}
+	line := fmt.Sprintf("O %d %s", len(oTrace), strings.Join(oTrace, " "))
 	run.Case(id, line, "ACCEPT")
 	run.TracesAgainstImpl++
 	run.Count(fmt.Sprintf("once/n=%d", n))
@@ -323,7 +346,7 @@ func onceCase(hseed uint64) {
 				addFail("once-two-in-flight", "goroutine %d entered f while %d was inside: %v", g, running, trace)
 			}
 			running = g
-		case 'd', 'c':
+		case 'd', 'c', 'p':
 			running = -1
 		case 'r':
 			fmt.Sscanf(e[1:], "%d.%d", &g, &v)
@@ -354,11 +377,12 @@ func setCase(hseed uint64) {
 		j         uint64
 		fail      bool
 		cancel    bool
+		panics    bool // the fetch function panics (the caller recovers outside Set)
 	}
 	calls := make([]call, n)
 	h0, k0 := common.Pick(r, hosts), common.Pick(r, keys)
 	for i := range calls {
-		calls[i] = call{host: h0, key: k0, scheme: common.Pick(r, []auth.Scheme{auth.SchemeBearer, auth.SchemeBearer, auth.SchemeBasic}), j: r.U64(), fail: r.Chance(1, 8), cancel: r.Chance(1, 6)}
+		calls[i] = call{host: h0, key: k0, scheme: common.Pick(r, []auth.Scheme{auth.SchemeBearer, auth.SchemeBearer, auth.SchemeBasic}), j: r.U64(), fail: r.Chance(1, 8), cancel: r.Chance(1, 6), panics: r.Chance(1, 10)}
 		if r.Chance(1, 3) {
 			calls[i].host = common.Pick(r, hosts)
 		}
@@ -385,6 +409,13 @@ func setCase(hseed uint64) {
 		wg.Add(1)
 		go func(i int, c call) {
 			defer wg.Done()
+			defer func() {
+				if rec := recover(); rec != nil && !c.panics {
+					mu.Lock()
+					fails = append(fails, violation{"set-unexpected-panic", fmt.Sprintf("Set(%q, %v, %q) panicked: %v", c.host, c.scheme, c.key, rec)})
+					mu.Unlock()
+				}
+			}()
 			<-start
 			if !tight {
 				jitter(c.j)
@@ -403,6 +434,9 @@ func setCase(hseed uint64) {
 				}
 				if ctx.Err() != nil {
 					return "", ctx.Err()
+				}
+				if c.panics {
+					panic(fmt.Sprintf("fetch %d blew up", i))
 				}
 				if c.fail {
 					return "", fmt.Errorf("fetch %d failed", i)
@@ -491,6 +525,14 @@ func mixCase(hseed uint64) {
 				w.jobAnswers[job] = append(w.jobAnswers[job], fmt.Sprintf("S%d", is.serial))
 				run.Count("mixjob/shared-fetch-result")
 			}
+		}
+	}
+	if tc != nil {
+		tc.onSharedErr = func(job int) {
+			w.mu.Lock()
+			defer w.mu.Unlock()
+			w.jobAnswers[job] = append(w.jobAnswers[job], "Z") // the model's answer AShareFail
+			run.Count("mixjob/shared-fetch-error")
 		}
 	}
 	client := &auth.Client{Client: &http.Client{Transport: w}, Cache: cache, Credential: w.credentialFunc(), ForceAttemptOAuth2: oauth2}
@@ -615,10 +657,6 @@ func mixCase(hseed uint64) {
 		}
 		if rd == nil {
 			rd = &jobReads{scheme: "-"}
-		}
-		if rd.setCalls > 0 && !rd.fetched && len(rd.sets) == 0 {
-			run.Count("mixjob/unjudged-shared-failure") // it received another call's fetch ERROR: not in the model
-			continue
 		}
 		o := 0
 		if oauth2 {
